@@ -192,3 +192,51 @@ def bnd_generated(tier, seed):
     return {"evaluations": n_eval, "distinct": len(distinct), "failures": list(fails),
             "scope": f"{count} definitions generated from the documented grammar (depth <= 4, width <= 3, optional list names, comments, whitespace variants) over {len(ITEMS)} data item names, plus bracket deletions and unknown-name mutations",
             "rule": "distinct = definition texts", "samples": [{"text": "< L < TRID > < L SVIDS < SVID > > >"}]}
+
+
+@fd("C19", "element-list-methods")
+def fd_element_list_methods():
+    """The three one-line methods of _SFDLElementList that contracts/C19_sfdl.py assumes through a ghost cursor (available, pop,
+    peek) against that ghost view, natively, for every list of 0..4 elements and every number of preceding pops; and the
+    top-level call of _process_tokens with tokens=None (which the contract leaves out) creating the list."""
+    from secsgem.secs.functions.sfdl_tokenizer import _SFDLElementList, _SFDLSourceLocation, SFDLTokenizer
+    bad = None
+    total = 0
+    for n in range(5):
+        values = [f"e{k}" for k in range(n)]
+        for popped in range(n + 1):
+            total += 1
+            el = _SFDLElementList()
+            for k, v in enumerate(values):
+                el.append(v, _SFDLSourceLocation(1, k + 1))
+            got = [el.pop()[0] for _ in range(popped)]
+            pos = popped
+            ok = got == values[:popped] and el.available == (pos < n)
+            if pos < n:
+                ok = ok and el.peek()[0] == values[pos] and el.peek(0)[0] == values[pos] and el.available
+                ok = ok and el.pop()[0] == values[pos]
+            else:
+                for op in (el.pop, el.peek):
+                    try:
+                        op()
+                        ok = False
+                    except IndexError:
+                        pass
+            if not ok and bad is None:
+                bad = {"elements": values, "popped": popped}
+    obs = [{"name": "ghost-cursor-view-of-the-element-list", "ok": bad is None, "witness": bad,
+            "detail": "available / pop / peek of _SFDLElementList differ from the cursor view the contracts assume"}]
+    t = SFDLTokenizer("< L < MDLN > >")
+    toks = t._process_tokens(_mk_elements(["<", "MDLN", ">"]))
+    obs.append({"name": "top-level-call-creates-the-token-list", "ok": isinstance(toks, list) and len(toks) == 3, "witness": {"tokens": len(toks) if isinstance(toks, list) else None},
+                "detail": "_process_tokens(elements) without a token list must return a new list with the tokens"})
+    return {"obligations": obs, "domain": "element lists of 0..4 elements x every number of preceding pops; one top-level call", "size": total + 1, "exhaustive": True,
+            "samples": [{"elements": ["e0", "e1"], "popped": 1}]}
+
+
+def _mk_elements(values):
+    from secsgem.secs.functions.sfdl_tokenizer import _SFDLElementList, _SFDLSourceLocation
+    el = _SFDLElementList()
+    for k, v in enumerate(values):
+        el.append(v, _SFDLSourceLocation(1, k + 1))
+    return el
